@@ -5,6 +5,7 @@ package evaluator
 import (
 	"errors"
 	"sort"
+	"strings"
 
 	"evylang.dev/evy/pkg/parser"
 )
@@ -101,10 +102,6 @@ func zzWellFormed(v value, t *parser.Type) bool {
 	return false
 }
 
-func zzAcceptableErr(err error) bool {
-	var ee ExitError
-	return errors.Is(err, ErrPanic) || errors.As(err, &ee) || errors.Is(err, ErrTest)
-}
 
 // ZZC02Builtins: one call of every built-in with arguments of its declared types.
 func ZZC02Builtins() {
@@ -293,4 +290,105 @@ func strconvItoa(k int) string {
 		k /= 10
 	}
 	return s
+}
+
+// ZZC02Shadow: a block of every kind that first uses an outer variable and
+// then declares a variable of the same name with a different type. Every
+// iteration of a loop body starts from a fresh scope: the outer variable (of
+// the outer static type) is what the body sees before its own declaration.
+func ZZC02Shadow() {
+	vals := []struct{ lit, typ, show string }{
+		{"1", "num", "1"}, {"\"s\"", "string", "s"}, {"true", "bool", "true"}, {"[1 2]", "[]num", "[1 2]"}, {"{k:1}", "{}num", "{k:1}"},
+	}
+	o := vals[zzChoice("outer", len(vals))]
+	in := vals[zzChoice("inner", len(vals))]
+	zzAssume(o.typ != in.typ)
+	heads := []struct {
+		open  []string
+		iters int
+		name  string
+	}{
+		{[]string{"if true"}, 1, "if"},
+		{[]string{"if false", "    print 0", "else if true"}, 1, "elseif"},
+		{[]string{"if false", "    print 0", "else"}, 1, "else"},
+		{[]string{"w := 0", "while w < 2", "    w = w + 1"}, 2, "while"},
+		{[]string{"for range 2"}, 2, "fornum"},
+		{[]string{"for e := range [7 8]", "    print e"}, 2, "forarray"},
+		{[]string{"for e := range \"ab\"", "    print e"}, 2, "forstring"},
+		{[]string{"for e := range {p:1 q:2}", "    print e"}, 2, "formap"},
+	}
+	h := heads[zzChoice("block", len(heads))]
+	lines := []string{"x := " + o.lit}
+	lines = append(lines, h.open...)
+	lines = append(lines, "    print (typeof x) x", "    x := "+in.lit, "    print (typeof x) x", "end", "print (typeof x) x")
+	src := strings.Join(lines, "\n") + "\n"
+	want := ""
+	extra := map[string][]string{"forarray": {"7", "8"}, "forstring": {"a", "b"}, "formap": {"p", "q"}}
+	for k := 0; k < h.iters; k++ {
+		if ex, ok := extra[h.name]; ok {
+			want += "print:" + ex[k] + "\n|"
+		}
+		want += "print:" + o.typ + " " + o.show + "\n|print:" + in.typ + " " + in.show + "\n|"
+	}
+	want += "print:" + o.typ + " " + o.show + "\n"
+	p := &zzPlat{}
+	ev := NewEvaluator(p)
+	err := ev.Run(src)
+	if err != nil || p.out() != want {
+		zzLog("C02 shadow:\n" + src + "got: " + p.out() + "\nwant: " + want)
+	}
+	zzAssert(err == nil, "C02 shadow: an accepted program that shadows a variable with another type in a "+h.name+" block runs to completion")
+	zzAssert(p.out() == want, "C02 shadow: every value has the static type of the variable the parser resolved it to ("+h.name+")")
+	zzReach("shadow-" + h.name)
+	zzWitness("end")
+}
+
+// ZZC02Index: indexing and slicing programs over arrays and strings that
+// contain multi-byte characters, with any float64 as the index: they end with
+// a result or a documented panic, never a host crash.
+func ZZC02Index() {
+	strs := []string{"", "a", "ñ", "añ✓"}
+	s := strs[zzChoice("str", len(strs))]
+	n := len([]rune(s))
+	forms := []string{
+		"print s[i]\n", "print s[i:]\n", "print s[:i]\n", "print a[i]\n", "print a[i:]\n", "print a[:i]\n",
+		"for c := range s[i:]\n    print c\nend\n", "a[i] = \"z\"\nprint a\n",
+	}
+	form := zzChoice("form", len(forms))
+	arr := "["
+	for k, r := range []rune(s) {
+		if k > 0 {
+			arr += " "
+		}
+		arr += "\"" + string(r) + "\""
+	}
+	arr += "]"
+	if n == 0 {
+		arr = "[\"\"][:0]"
+	}
+	src := "i := 0\ns := \"" + s + "\"\na := " + arr + "\n" + forms[form] + "print (len s) (len a) i\n"
+	p := &zzPlat{}
+	ev := NewEvaluator(p)
+	prog := zzMustParse(ev, src, "C02 index")
+	if prog == nil {
+		return
+	}
+	f := zzFloat64("i")
+	zzSetNum(prog, 0, f)
+	err := ev.Eval(prog)
+	isIndex := form == 0 || form == 3 || form == 7
+	var ok bool
+	if isIndex {
+		_, ok = zzSpecIndex(f, n)
+	} else {
+		_, ok = zzSpecBound(f, n)
+	}
+	if err != nil {
+		zzAssert(errors.Is(err, ErrPanic), "C02 index: an index or slice fails only with a documented Evy panic")
+		zzReach("index-panic")
+	} else {
+		zzReach("index-ok")
+	}
+	zzAssert((err == nil) == ok, "C02 index: index/slice programs succeed exactly for integral positions inside the rune length")
+	zzWitness("end")
 }
